@@ -310,6 +310,13 @@ class XMLParserMixin(
             # Since there's no handler or something has gone wrong we
             # explicitly add the element and its attributes.
             unknown_tag = prefix + suffix
+            # namespace declarations are not attributes (the loose parser
+            # delivers them as such, the strict one only for xlink)
+            attrs_d = {
+                k: v
+                for k, v in attrs_d.items()
+                if k != "xmlns" and not k.startswith("xmlns:")
+            }
             if len(attrs_d) == 0:
                 # No attributes so merge it into the enclosing dictionary
                 return self.push(unknown_tag, 1)
